@@ -82,7 +82,7 @@ CHECKS = {
     "C12": (
         "iofault", "fault_enumeration",
         "exhaustive crash-point enumeration: every raw I/O step boundary of every operation of every BFS-explored history is a crash image recovered by a fresh TinyFlux; real-kill conformance",
-        "All histories (BFS, depth<=4/5) over the crash alphabet (incl. reopen, plain and through a with block) on CSV, also opened through a symbolic link; the seam numbers every raw call (open, write, truncate, fsync, close, replace, copy steps); the file bytes at every boundary are recovered by a fresh TinyFlux and must equal the contents before or after the operation (insert_multiple: prefix); 200+ boundaries re-validated by os._exit in a child process.",
+        "All histories (BFS, depth<=4/5) over the crash alphabet (incl. reopen, plain and through a with block) on CSV, also opened through a symbolic link and with access_mode 'w+'; the seam numbers every raw call (open, write, truncate, fsync, close, replace, copy steps); the file bytes at every boundary are recovered by a fresh TinyFlux and must equal the contents before or after the operation (insert_multiple: prefix); 200+ boundaries re-validated by os._exit in a child process.",
         FNOTE, "4/C12",
     ),
     "C13": (
